@@ -3,6 +3,7 @@
 pub mod abortguard;
 pub mod cli;
 pub mod common;
+pub mod phased;
 pub mod rng;
 
 use serde::{Deserialize, Serialize};
